@@ -40,8 +40,11 @@ type outcome struct {
 	// digest is a stable summary of the result (error text or hash of the decoded value); the
 	// state check compares the digest of the known-good input with the reference.
 	digest string
-	// rt is a non-empty description of a round-trip inconsistency of an accepted input.
-	rt string
+	// rt is a non-empty description of a round-trip inconsistency of an accepted input; rtSig
+	// optionally replaces the default signature "roundtrip-<target>" by the one of a precise class.
+	rt, rtSig string
+	// excluded is set by check when the input only shows an excluded known finding.
+	excluded string
 	// viol is a target-specific violation: signature suffix and message.
 	violSig, violMsg string
 	// note carries extra information for the violation message (e.g. the envelope built around the input).
@@ -221,7 +224,17 @@ func check(t failer, tg *target, in []byte, seedName string, kinds []string) out
 		}
 	}
 	if r.out.rt != "" {
-		ev.Violation(t, "roundtrip-"+tg.name, "accepted input does not re-encode/decode consistently: %s; %s", r.out.rt, describe(tg, in, seedName, kinds, r.out.note))
+		sig := "roundtrip-" + tg.name
+		if r.out.rtSig != "" {
+			sig = r.out.rtSig
+		}
+		if ev.Excluded(sig) {
+			// the input satisfies exactly the precondition of an excluded known finding: the caller
+			// counts it as a discard; everything else about it was still checked
+			r.out.excluded = sig
+		} else {
+			ev.Violation(t, sig, "accepted input does not re-encode/decode consistently: %s; %s", r.out.rt, describe(tg, in, seedName, kinds, r.out.note))
+		}
 	}
 	if r.out.violSig != "" {
 		ev.Violation(t, r.out.violSig+"-"+tg.name, "%s; %s", r.out.violMsg, describe(tg, in, seedName, kinds, r.out.note))
@@ -372,6 +385,10 @@ func excluded(tg *target, in []byte) string {
 }
 
 func record(rec *ev.Recorder, tg *target, in []byte, out outcome, how string, kinds []string) {
+	if out.excluded != "" {
+		rec.Discard("excluded:" + out.excluded)
+		return
+	}
 	rec.Label("n:" + tg.name)
 	rec.Label(fmt.Sprintf("depth%d:%s", min(out.depth, 3), tg.name))
 	rec.Label("how:" + how)
